@@ -147,3 +147,31 @@ M.contract('xtuml.meta.MetaClass.new@positional', [('self', MC), ('*args', SeqT(
                                'stored': 'self.storage == old(self.storage) + [inst] and inst.__metaclass__ is self and fresh(inst)',
                                'others-untouched': 'all(implies(x is not inst, same(x.__dict__, old(x.__dict__))) for x in anyref("Class"))'}, modifies=['Class.__dict__'])},
            locals={'referential_attributes': MapT(STR, VAL)})
+
+# ---- clone: every declared attribute of the copy holds the value read from the original under the same name (composition of the
+#      attribute reads with new@positional; classes without referential attributes, original of the same class)
+M.uninterpreted('attr_value', [INST, STR], VAL)
+M.klass('Class', getattr='builtins.getattr@Class')
+M.contract('builtins.getattr@Class', [('obj', INST), ('name', STR)], returns=VAL, trusted=True,
+           reason='PY-6: attribute read of an instance under any spelling (pure); contracts.c10 proves Class.__getattr__ against the CPython lookup',
+           ensures={'value': 'same(result, attr_value(obj, name))'}, modifies=[])
+M.contract('xtuml.meta.get_metaclass', [('class_or_instance', INST)], returns=MC, trusted=True, reason='contracts.c02 (proved there)',
+           requires={'instance': 'class_or_instance is not None'},
+           ensures={'metaclass-of-instance': 'result is class_or_instance.__metaclass__'}, modifies=[])
+M.contract('xtuml.meta.MetaClass.clone', [('self', MC), ('instance', INST)], returns=INST,
+           requires={'wf': 'self.clazz is not None and self.clazz.metaclass is self and self.metamodel is not None and self.metamodel.id_generator is not None',
+                     'an-instance-of-this-class': 'instance is not None and instance.__metaclass__ is self',
+                     'declared-names-distinct': 'distinct_names(self)',
+                     'known-types': 'all(known_type(a[1]) for a in self.attributes)',
+                     'no-referential-attributes': 'all(a[0] not in self.referential_attributes for a in self.attributes)',
+                     'plain-attributes-are-not-properties': 'all(all(not has_property(x, self.attributes[j][0]) for j in range(0, len(self.attributes))) for x in anyref("Class"))'},
+           ensures={'a-new-instance-of-this-class': 'fresh(result) and result.__metaclass__ is self',
+                    'stored-last-in-the-pool-the-others-keep-their-places': 'len(self.storage) == len(old(self.storage)) + 1 and self.storage[len(old(self.storage))] is result '
+                    'and all(self.storage[j] is old(self.storage)[j] for j in range(0, len(old(self.storage))))',
+                    'every-attribute-holds-the-value-of-the-original': 'all(self.attributes[j][0] in result.__dict__ and '
+                    'same(result.__dict__[self.attributes[j][0]], attr_value(instance, self.attributes[j][0])) for j in range(0, len(self.attributes)))'},
+           modifies=['self.storage', 'self.metamodel.id_generator._current', 'Class.__dict__', 'Class.__metaclass__'],
+           loops={0: Loop(inv={'iterates': '_seq == self.attributes',
+                               'values-read-so-far': 'len(args) == _i and all(same(args[j], attr_value(instance, self.attributes[j][0])) for j in range(0, _i))',
+                               'nothing-created-yet': 'unchanged()'})},
+           locals={'args': SeqT(VAL)})
